@@ -42,6 +42,9 @@ struct Plan {
 }
 
 struct Scenario {
+	/// a client sits in the callback of iter_column_while (holding the iteration lock the commit worker needs)
+	/// while the other commits are logged and rotated; released when the clients are done
+	iter_hold: bool,
 	nclients: usize,
 	huge: bool,
 	always_flush: bool,
@@ -62,7 +65,15 @@ fn scenario(seed: u64) -> Scenario {
 		for _ in 0..rng.range(2, 6) {
 			plan.push(Plan { keys: vec![rng.below(NKEYS as u64) as usize], len: rng.range(16, 3000) as usize, pause_us: 0 });
 		}
-		return Scenario { nclients: 1, huge: true, always_flush: rng.chance(1, 3), plan }
+		return Scenario { iter_hold: false, nclients: 1, huge: true, always_flush: rng.chance(1, 3), plan }
+	}
+	// backlog scenario (a fifth of the runs): every commit is rotated into a log file of its own (always_flush) while
+	// an iteration blocks enactment, so that more rotated files pile up than the commit worker enacts without
+	// waiting for a cleanup pass
+	if rng.chance(1, 4) {
+		let n = rng.range(7, 16) as usize;
+		let plan = (0..n).map(|i| Plan { keys: vec![1 + i % (NKEYS - 1)], len: rng.range(200, 3000) as usize, pause_us: rng.range(15000, 40000) }).collect();
+		return Scenario { iter_hold: true, nclients: 1, huge: false, always_flush: true, plan }
 	}
 	let nclients = rng.range(1, 3) as usize;
 	let ntx = rng.range(20, 160) as usize;
@@ -85,7 +96,7 @@ fn scenario(seed: u64) -> Scenario {
 		let keys: Vec<usize> = if huge && n == ntx / 2 { (0..6).collect() } else { (0..nk).map(|_| rng.below(NKEYS as u64) as usize).collect() };
 		plan.push(Plan { keys, len, pause_us: if rng.chance(1, 3) { rng.range(0, 2000) } else { 0 } });
 	}
-	Scenario { nclients, huge, always_flush, plan }
+	Scenario { iter_hold: false, nclients, huge, always_flush, plan }
 }
 
 fn options(dir: &std::path::Path, sc: &Scenario) -> Options {
@@ -97,6 +108,37 @@ fn options(dir: &std::path::Path, sc: &Scenario) -> Options {
 
 /// run the clients against an open handle; returns the commit list (version, keys) in commit order
 fn run_clients(db: &Arc<Db>, sc: Scenario) -> (Vec<(u64, Vec<usize>)>, Option<String>, u64) {
+	// the iteration that holds the lock: one value is brought into the tables first, so that there is something to visit
+	let mut release: Option<(std::sync::mpsc::Sender<()>, std::thread::JoinHandle<()>)> = None;
+	let mut pre: Vec<(u64, Vec<usize>)> = Vec::new();
+	if sc.iter_hold {
+		let _ = db.commit(vec![(0u8, key(0), Some(value(1_000_000, 0, 64)))]);
+		pre.push((1_000_000, vec![0]));
+		let t0 = std::time::Instant::now();
+		loop {
+			let mut seen = 0;
+			let _ = db.iter_column_while(0, |_| {
+				seen += 1;
+				true
+			});
+			if seen > 0 || t0.elapsed().as_secs() > 10 {
+				break
+			}
+			std::thread::sleep(std::time::Duration::from_millis(5));
+		}
+		let (started_tx, started_rx) = std::sync::mpsc::channel::<()>();
+		let (release_tx, release_rx) = std::sync::mpsc::channel::<()>();
+		let idb = db.clone();
+		let h = std::thread::spawn(move || {
+			let _ = idb.iter_column_while(0, |_| {
+				let _ = started_tx.send(());
+				let _ = release_rx.recv_timeout(std::time::Duration::from_secs(30));
+				false
+			});
+		});
+		let _ = started_rx.recv_timeout(std::time::Duration::from_secs(10));
+		release = Some((release_tx, h));
+	}
 	let nclients = sc.nclients;
 	let plan = Arc::new(sc.plan);
 	let next = Arc::new(Mutex::new((0usize, Vec::<(u64, Vec<usize>)>::new())));
@@ -132,7 +174,12 @@ fn run_clients(db: &Arc<Db>, sc: Scenario) -> (Vec<(u64, Vec<usize>)>, Option<St
 	for c in clients {
 		let _ = c.join();
 	}
-	let list = next.lock().unwrap().1.clone();
+	if let Some((tx, h)) = release {
+		let _ = tx.send(());
+		let _ = h.join();
+	}
+	let mut list = pre;
+	list.extend(next.lock().unwrap().1.clone());
 	let f = failure.lock().unwrap().take();
 	(list, f, bytes_total.load(Ordering::Relaxed))
 }
@@ -182,6 +229,7 @@ pub fn main(args: &[String]) -> i32 {
 		let sseed = rng.next();
 		let sc = scenario(sseed);
 		let (nclients, huge, ntx) = (sc.nclients, sc.huge, sc.plan.len());
+		let (always_flush, iter_hold) = (sc.always_flush, sc.iter_hold);
 		let opts = options(&dir, &sc);
 		let kill_mode = rng.chance(1, 2);
 		crate::util::watch_begin(&out, &[15, sseed, ntx as u64, nclients as u64, huge as u64, kill_mode as u64]);
@@ -251,8 +299,19 @@ pub fn main(args: &[String]) -> i32 {
 					last = now;
 				}
 			}
+			// with always_flush every record is rotated into a finished log file at once: in the quiet state all of
+			// them have been applied to the tables and cleaned, the log files are empty
+			if always_flush && verdict.is_ok() {
+				let left: u64 = last.iter().filter(|(n, _)| n.starts_with("log") && n[3..].parse::<u32>().is_ok()).map(|(_, s)| *s).sum();
+				if left != 0 {
+					verdict = Err(format!("not-applied-without-activity the clients had stopped and the directory had not changed for 1.5 s: {left} bytes of rotated log records are still not applied to the tables and cleaned"));
+				}
+			}
 			let _ = ch.kill();
 			let _ = ch.wait();
+			if iter_hold {
+				*dist.entry("runs-with-an-iteration-holding-back-enactment".into()).or_insert(0) += 1;
+			}
 			*dist.entry("runs-killed-after-a-quiet-period".into()).or_insert(0) += 1;
 			commit_list = list;
 			bytes = b;
